@@ -29,3 +29,20 @@ Definition check_margin_columns (dem gop w m nm : Q) : bool :=
 Definition check_turnout_factor (rw bw tf : Q) : bool := close9 (turnout_factor rw bw) tf.
 Definition check_residual (results baseline last resid : Q) : bool :=
   Qeq_bool (last_election baseline) last && close9 (residual results baseline) resid.
+
+(* C12 (known finding F23): add_estimand_baselines on the columns that decide the baseline weights of a unit, for a run that requests
+   the margin.  The frame is processed in place; `has_margin` says whether baseline_margin is already a column of the frame handed in
+   (it is after a first pass, and in the file a call with "data" in save_output writes). *)
+Record bframe := { bf_dem : Q; bf_gop : Q; bf_turnout : Q; bf_weights : option Q; bf_has_margin : bool }.
+Definition add_baselines_margin (f : bframe) : bframe :=
+  (* add_weights: baseline_weights = baseline_turnout, whatever was there *)
+  let f1 := {| bf_dem := bf_dem f; bf_gop := bf_gop f; bf_turnout := bf_turnout f; bf_weights := Some (bf_turnout f); bf_has_margin := bf_has_margin f |} in
+  (* "if baseline_col not in data_df.columns": margin() -- which overwrites the weights with the two-party vote -- runs only then *)
+  if bf_has_margin f1 then f1
+  else {| bf_dem := bf_dem f; bf_gop := bf_gop f; bf_turnout := bf_turnout f; bf_weights := Some (bf_dem f + bf_gop f); bf_has_margin := true |}.
+Definition weights_eqb (a b : option Q) : bool :=
+  match a, b with Some x, Some y => Qeq_bool x y | None, None => true | _, _ => false end.
+(* comparator: baseline_weights of a unit after one and after two passes over the same frame *)
+Definition check_add_baselines (dem gop turnout w1 w2 : Q) : bool :=
+  let f0 := {| bf_dem := dem; bf_gop := gop; bf_turnout := turnout; bf_weights := None; bf_has_margin := false |} in
+  weights_eqb (bf_weights (add_baselines_margin f0)) (Some w1) && weights_eqb (bf_weights (add_baselines_margin (add_baselines_margin f0))) (Some w2).
